@@ -55,10 +55,12 @@ pub fn run_history(cfg: &Cfg, seed: u64, h: &[Call]) -> Vec<(usize, Result<Vec<u
                 g.max_opcodes = *b;
             }
             Call::Bytes(b) => {
+                let _w = crate::watch::enter(cfg, b, None);
                 let r = run_on(&mut g, Entropy::Bytes(b), false, false);
                 out.push((i, if let Some(p) = r.panic { Err(format!("panic: {p}")) } else { r.out }));
             }
             Call::Seeded => {
+                let _w = crate::watch::enter(cfg, &[], Some(seed));
                 let r = run_on(&mut g, Entropy::Seeded, false, false);
                 out.push((i, if let Some(p) = r.panic { Err(format!("panic: {p}")) } else { r.out }));
             }
